@@ -329,4 +329,61 @@ theorem cldrOperands_asString {n : FluentNumber} (h : WF n.value) :
       rw [← hve]
       simp only [hemp, Bool.false_eq_true, if_false, digitsOf_digitBytes hvd hne, stripTrailingZeros_visibleFrac]
 
+/-! ## what `FromStr` remembers -/
+
+theorem stripTrailingZeros_length_le (l : List Nat) : (stripTrailingZeros l).length ≤ l.length := by
+  unfold stripTrailingZeros
+  have := (List.dropWhile_sublist (fun (y : Nat) => y == 0) (l := l.reverse)).length_le
+  simpa using this
+
+theorem splitAtDot_minus (b : Bytes) : (splitAtDot (45 :: b)).2 = (splitAtDot b).2 := by
+  have : ((45 : UInt8) == 46) = false := by decide
+  simp [splitAtDot, this]
+
+theorem mfdOfSource_eq (bs : Bytes) : mfdOfSource bs = (splitAtDot bs).2.map List.length := by
+  unfold mfdOfSource
+  cases h : splitAtDot bs with
+  | mk a b => cases b <;> rfl
+
+/-- what `FromStr` remembers is the number of digits written after the point -/
+theorem mfdOfSource_parseDec {src : Bytes} {d : Dec} (h : parseDec src = some d) :
+    mfdOfSource src = (if (splitAtDot src).2.isSome then some d.frac.length else none) ∧
+    ((splitAtDot src).2 = none → d.frac = []) ∧
+    ((splitAtDot src).2.isSome → d.frac ≠ []) := by
+  have key : ∀ (neg : Bool) (body : Bytes), parseBody neg body = some d →
+      (splitAtDot body).2.map List.length = (if (splitAtDot body).2.isSome then some d.frac.length else none) ∧
+      ((splitAtDot body).2 = none → d.frac = []) ∧ ((splitAtDot body).2.isSome → d.frac ≠ []) := by
+    intro neg body hb
+    unfold parseBody at hb
+    cases h1 : digitsOf (splitAtDot body).1 with
+    | none => simp [h1] at hb
+    | some id =>
+      cases h2 : (splitAtDot body).2 with
+      | none =>
+        simp only [h1, h2, Option.some.injEq] at hb
+        subst hb
+        simp
+      | some fb =>
+        simp only [h1, h2] at hb
+        cases h3 : digitsOf fb with
+        | none => simp [h3] at hb
+        | some fd =>
+          simp only [h3, Option.some.injEq] at hb
+          subst hb
+          have hfd := digitsOf_some h3
+          simp [hfd.2.2.2, hfd.2.1]
+  rw [mfdOfSource_eq]
+  cases src with
+  | nil => exact key false [] (by rw [← parseDec_pos (by intro r; simp)]; exact h)
+  | cons a t =>
+    by_cases ha : a = 45
+    · subst ha
+      rw [parseDec_neg] at h
+      rw [splitAtDot_minus]
+      exact key true t h
+    · have hp : parseDec (a :: t) = parseBody false (a :: t) :=
+        parseDec_pos (by intro r hr; simp only [List.cons.injEq] at hr; exact ha hr.1)
+      rw [hp] at h
+      exact key false _ h
+
 end FluentProofs.Num
